@@ -801,8 +801,19 @@ func isWriteAccess(sel *ast.SelectorExpr, stack []ast.Node, mutators map[string]
 			}
 			return false
 		case *ast.CallExpr:
-			if id, ok := p.Fun.(*ast.Ident); ok && (id.Name == "delete" || id.Name == "clear") && len(p.Args) > 0 && p.Args[0] == cur {
+			if id, ok := p.Fun.(*ast.Ident); ok && (id.Name == "delete" || id.Name == "clear" || id.Name == "copy") && len(p.Args) > 0 && p.Args[0] == cur {
 				return true
+			}
+			// library functions that rearrange or overwrite the elements of the slice they are given
+			if se, ok := p.Fun.(*ast.SelectorExpr); ok && len(p.Args) > 0 && p.Args[0] == cur {
+				if pk, isId := se.X.(*ast.Ident); isId {
+					switch pk.Name + "." + se.Sel.Name {
+					case "slices.Delete", "slices.DeleteFunc", "slices.Reverse", "slices.Sort", "slices.SortFunc", "slices.SortStableFunc",
+						"slices.Compact", "slices.CompactFunc", "slices.Insert", "slices.Replace",
+						"sort.Slice", "sort.SliceStable", "sort.Sort", "sort.Stable", "sort.Strings", "sort.Ints":
+						return true
+					}
+				}
 			}
 			return false
 		case *ast.SelectorExpr:
